@@ -167,6 +167,11 @@ pub fn fragile() -> Fuzzer<Int> {
       )
 }
 
+/// The first draw bounds the second.
+pub fn dependent() -> Fuzzer<Int> {
+  byte() |> and_then(fn(n) { below(n + 1) })
+}
+
 pub fn label(str: String) -> Void {
   builtin.debug(builtin.append_string(@"\0", str), Void)
 }
